@@ -409,3 +409,41 @@ Fixpoint ins_by {A : Type} (lt : A -> A -> bool) (x : A) (l : list A) : list A :
   end.
 Definition sort_by_lt {A : Type} (lt : A -> A -> bool) (l : list A) : list A :=
   fold_left (fun acc x => ins_by lt x acc) l [].
+
+(* ---------- extensionality with a changed start state / scrutinee ----------
+   Used by the field-mode leaf tactic of the source ties (proofs/BrainTie.v): two loops over the same items are equal
+   when their start states are equal and their bodies agree on every item.  (Function extensionality is not assumed
+   anywhere, so a comparison of two closures always goes through one of these.) *)
+Lemma obind_ext {A B : Type} (o o' : option A) (f g : A -> option B) :
+  o = o' -> (forall x, o' = Some x -> f x = g x) -> obind o f = obind o' g.
+Proof. intros -> H. destruct o' as [x|]; [apply H; reflexivity | reflexivity]. Qed.
+
+Lemma fold_left_ext_st {A B : Type} (f g : A -> B -> A) l a a' :
+  a = a' -> (forall a x, In x l -> f a x = g a x) -> fold_left f l a = fold_left g l a'.
+Proof.
+  intros -> H. revert a'. induction l as [|x r IH]; intros a; [reflexivity|]. cbn [fold_left].
+  rewrite H by (left; reflexivity). apply IH. intros a' y Hy. apply H. right. exact Hy.
+Qed.
+
+Lemma for_range_ext_st {St : Type} a b (body body' : nat -> St -> St) s s' :
+  s = s' -> (forall i s, a <= i < b -> body i s = body' i s) -> for_range a b body s = for_range a b body' s'.
+Proof. intros -> H. apply for_range_ext. exact H. Qed.
+
+Lemma for_each_ext_st {A St : Type} l (body body' : A -> St -> St) s s' :
+  s = s' -> (forall x s, In x l -> body x s = body' x s) -> ImpL.for_each l body s = ImpL.for_each l body' s'.
+Proof. intros -> H. unfold ImpL.for_each. apply fold_left_ext_st; [reflexivity|]. intros a x Hx. apply H. exact Hx. Qed.
+
+Lemma for_each_opt_ext_st {A St : Type} l (body body' : A -> St -> option St) s s' :
+  s = s' -> (forall x s, In x l -> body x s = body' x s) -> for_each_opt l body s = for_each_opt l body' s'.
+Proof. intros -> H. apply for_each_opt_ext. exact H. Qed.
+
+Lemma for_range_opt_ext_st {St : Type} a b (body body' : nat -> St -> option St) s s' :
+  s = s' -> (forall i s, a <= i < b -> body i s = body' i s) -> for_range_opt a b body s = for_range_opt a b body' s'.
+Proof. intros -> H. apply for_range_opt_ext. exact H. Qed.
+
+Lemma fold_opt_ext_st {A B : Type} (f g : B -> A -> option B) l b b' :
+  b = b' -> (forall b x, In x l -> f b x = g b x) -> fold_opt f l b = fold_opt g l b'.
+Proof. intros -> H. apply fold_opt_ext. exact H. Qed.
+
+Lemma fsum_ext {F : Type} (N : Num F) (l l' : list F) : l = l' -> fsum N l = fsum N l'.
+Proof. intros ->. reflexivity. Qed.
